@@ -1,14 +1,15 @@
 #!/bin/bash
-# usage: confirm_seed.sh <worktree> <seeddir> <demo test filter>
+# usage: confirm_seed.sh <worktree> <seeddir> <demo test filter | binary:<name>>
 # confirms: patch applies; full suite passes with patch; demo fails with patch; demo passes without patch
 WT=$1; SD=$2; F=$3
+case "$F" in binary:*) FA=(-E "binary(${F#binary:})");; *) FA=("$F");; esac
 cd $WT || exit 9
 git checkout -q -- . ; git clean -fdq -e target
 git apply $SD/patch.diff || { echo "PATCH DOES NOT APPLY"; exit 1; }
 echo "== suite with patch"; cargo nextest run --workspace --no-fail-fast --offline --test-threads 8 2>&1 | grep -E "Summary|FAIL " | head -5
 git apply $SD/demo.diff || { echo "DEMO DOES NOT APPLY on patched"; exit 1; }
-echo "== demo with patch (expect FAIL)"; cargo nextest run --workspace --no-fail-fast --offline --test-threads 8 $F 2>&1 | grep -E "Summary|FAIL |PASS " | head -8
+echo "== demo with patch (expect FAIL)"; cargo nextest run --workspace --no-fail-fast --offline --test-threads 8 "${FA[@]}" 2>&1 | grep -E "Summary|FAIL |PASS " | head -8
 git checkout -q -- . ; git clean -fdq -e target
 git apply $SD/demo.diff || { echo "DEMO DOES NOT APPLY on clean"; exit 1; }
-echo "== demo without patch (expect PASS)"; cargo nextest run --workspace --no-fail-fast --offline --test-threads 8 $F 2>&1 | grep -E "Summary|FAIL |PASS " | head -8
+echo "== demo without patch (expect PASS)"; cargo nextest run --workspace --no-fail-fast --offline --test-threads 8 "${FA[@]}" 2>&1 | grep -E "Summary|FAIL |PASS " | head -8
 git checkout -q -- . ; git clean -fdq -e target
